@@ -25,6 +25,10 @@ def gen_cases(chk):
                 else:
                     blk = [int(f[1][k:k + 2], 16) for k in range(0, len(f[1]), 2)] if f[1] != '-' else []
                     add(int(f[0]), blk, 'corpus')
+    # runs of one byte: the best compressible data, whose blocks are 10 - 12 bytes long
+    for n, by in ((13, 0), (20, 0), (64, 65), (300, 0), (534, 255)):
+        plain = [by] * n
+        add(len(plain), L.encode(plain, rng, 'greedy'), 'valid-greedy', plain)
     nvalid = 6000 if thorough else 500
     for i in range(nvalid):
         plain = L.gen_plain(rng, 1500 if thorough else 500)
@@ -153,6 +157,10 @@ def run(chk):
             ref = L.ref_decode(blk)
             if kind.startswith('valid') and ref is not None and len(ref) == osz and len(blk) < osz and len(blk) >= 13:
                 chk.violation(key, 'valid LZ4 block (smaller than its plaintext, reference end conditions) rejected', dict(case=c, got=i))
+            elif kind.startswith('valid') and ref is not None and len(ref) == osz and len(blk) < osz:
+                # the recorded finding: MINSRCSIZE (13, the smallest PLAINTEXT that can hold a match) is tested against the COMPRESSED size
+                chk.violation('c14:valid-block-shorter-than-13-bytes-refused', 'valid LZ4 block of %d bytes for %d bytes of data refused: lz4::decompress tests MINSRCSIZE = 13 against the size of the '
+                              'compressed block' % (len(blk), osz), dict(case=c, got=i))
             classes.add((kind, 'F', ref is None))
         if mres != ires[:len(mres)] or (ires[:1] == ['R'] and mres[:3] != ires[:3]):
             ndis += 1
